@@ -16,6 +16,15 @@ Harnesses
                 a TLS EOF error (is_ssl_eof_error: what the TCP clients turn into ConnectionAbortedError) counts as the
                 connection error of this transport
 
+History (aio-adapter, aio-tls; a quarter of their runs): one send_packet whose packet is larger than the (small) link is issued
+while the peer does not read at all, under the caller's time budget (backend.timeout(1/64 | 0.25 | 2 s)): it is suspended by
+backpressure and abandoned (TimeoutError within the budget); the peer then reads everything (the later sends are issued
+after the queue drained, or at once); every later send_packet on the healthy connection must return (or fail with a
+connection error if the link breaks): a send still pending after 4000 virtual seconds blocks forever
+(C04/<family>/blocks-forever[/after-abandoned-send]; the bound now guards every async send).  Bytes after an abandoned
+send: earlier packets exactly once + SOME prefix of the abandoned packet (documented: impossible to know how much was sent)
++ exactly the later packets (C04/<family>/bytes-equal/after-abandoned-send).
+
 Oracle (exactly the property statement): on normal return the peer's byte stream == concatenation of the chunks
 of all packets sent so far; on TimeoutError / ConnectionError it is a prefix of that; nothing else may escape;
 virtual elapsed <= timeout; termination: no run of socket calls that neither transfer a byte nor are told to block
@@ -28,6 +37,8 @@ empty chunks and zero-chunk packets are generated everywhere; `world.avoid_known
   C04/aio-adapter/spin/empty-chunk (+ aclose-hangs/...) D3  empty view left in asyncio's write queue
   C04/aio-adapter/send-raises/AssertionError/zero-chunks D11 packet with no chunk -> asyncio writelines() asserts
   C04/aio-adapter/bytes-equal/returned-before-flush     D12 writelines() path returned before the data was flushed
+  C04/aio-adapter/send-raises/AttributeError/after-connection-lost  D25 send_packet (writelines path) issued after the connection was
+                                                        lost in the background raised AttributeError (found by the history above)
 `window_trigger()` is the exact input class of D2/D3; it only selects the key of a spin violation.
 """
 from __future__ import annotations
@@ -70,8 +81,12 @@ RULE = (
     "SSLStreamTransport (real socketpair + reference TLS peer; faults = small SO_SNDBUF and peer reading late/periodically/never/dying); "
     "via low-level endpoints and TCP clients; blocking timeouts None/large/small/0; per "
     "socket call: full, short write, injected EAGAIN/EINTR, ECONNRESET/EPIPE from call n on, small link capacity with a peer that "
-    "reads at once / slowly / never (never only with a finite timeout), spurious writability; oracle: byte-exact equality on "
-    "return, prefix on TimeoutError/ConnectionError, elapsed <= timeout, livelock/spin detectors, aclose() completes"
+    "reads at once / slowly / never (never only with a finite timeout), spurious writability; async transports (adapter, TLS), a quarter "
+    "of the runs: history = a send_packet larger than the link is suspended (peer not reading) and abandoned by backend.timeout(1/64|0.25|2 s), "
+    "the peer then reads everything, later sends (after the drain / at once, also after a background ECONNRESET/EPIPE) must terminate; "
+    "oracle: byte-exact equality on return, prefix on TimeoutError/ConnectionError (after an abandoned async send: earlier packets + a prefix "
+    "of the abandoned one + exactly the later ones), elapsed <= timeout, every async send ends within 4000 virtual seconds (blocks-forever), "
+    "livelock/spin detectors, aclose() completes"
 )
 COMPONENTS_REAL = [
     "easynetwork.lowlevel.api_sync.transports.socket.SocketStreamTransport (+ base_selector._retry, abc.send_all*)",
@@ -223,6 +238,12 @@ class _Workload:
     def total(self) -> int:
         return sum(sum(ss) for ss in self.sizes)
 
+    def repeat_first(self) -> None:
+        """one more packet (same content as the first one): the send issued after an abandoned one"""
+        self.packets.append(self.packets[0])
+        self.expected.append(list(self.expected[0]))
+        self.sizes.append(list(self.sizes[0]))
+
 
 class _SendTap:
     """fault-plan wrapper on the library's socket: counts send/sendmsg calls and is the termination oracle.
@@ -324,12 +345,13 @@ class _SlowReader:
 class _Link:
     """one simulated connection with its swarm-drawn fault configuration"""
 
-    def __init__(self, world: World, total_bytes: int, *, allow_never: bool):
+    def __init__(self, world: World, total_bytes: int, *, allow_never: bool, force_small: bool = False):
         self.world = world
         net = self.net = SimNet(world)
         net.livelock_limit = 300
         # a third of the runs are fault-free (baseline): big link, no delay, no injected errors, peer reads at once
-        self.baseline = baseline = world.choose("swarm.faults", 3) == 0
+        # (force_small: the caller already decided that this run is a faulty one and needs real backpressure)
+        self.baseline = baseline = (not force_small) and world.choose("swarm.faults", 3) == 0
         if baseline:
             self.capacity = 1 << 21
             self.lib, psock = net.socketpair(capacity_ab=self.capacity)
@@ -341,7 +363,7 @@ class _Link:
             self.lib.fault_plan = self.tap
             self.sel_opts = {}
             return
-        cap_kind = world.pick("link.capacity", ("big", "small", "medium"))
+        cap_kind = world.pick("link.capacity", ("small", "medium") if force_small else ("big", "small", "medium"))
         if cap_kind == "big":
             capacity = 1 << 21
         elif cap_kind == "small":
@@ -433,6 +455,33 @@ def _check_bytes(family: str, wl: _Workload, done: int, failed: bool, link: _Lin
                 f"send_packet #{done} failed, the peer holds {len(got)} bytes which are not a prefix of the {len(full)} expected bytes (first difference at offset {where}); {_describe(wl, extra)}",
                 key=f"C04/{family}/bytes-prefix",
             )
+
+
+def _check_bytes_history(family: str, wl: _Workload, abandoned: int, later_ok: int, failed: bool, got: bytes, extra: dict) -> None:
+    """byte oracle of a connection on which send #abandoned was given up (TimeoutError from the caller's time budget) and
+    `later_ok` sends then returned normally (+ one that failed with a connection error if `failed`): everything before the
+    abandoned packet is there exactly once, then SOME prefix of the abandoned packet (the documentation says it is
+    impossible to know how much of it was sent), then exactly the later packets (a prefix of the failed one)."""
+    before = b"".join(b"".join(c) for c in wl.expected[:abandoned])
+    P = b"".join(wl.expected[abandoned])
+    later = b"".join(b"".join(c) for c in wl.expected[abandoned + 1 : abandoned + 1 + later_ok])
+    nxt = b"".join(wl.expected[abandoned + 1 + later_ok]) if failed and abandoned + 1 + later_ok < len(wl.expected) else b""
+
+    def tail_ok(tail: bytes) -> bool:
+        return (later + nxt).startswith(tail) and len(tail) >= len(later) if failed else tail == later
+
+    ok = got.startswith(before)
+    if ok:
+        rest = got[len(before) :]
+        k0 = _first_diff(rest, P)  # longest common prefix of what follows and the abandoned packet
+        ok = tail_ok(rest[k0:]) or any(tail_ok(rest[k:]) for k in range(k0 - 1, -1, -1))
+    if not ok:
+        raise Violation(
+            "bytes-equal",
+            f"send #{abandoned} was abandoned (TimeoutError), {later_ok} later send_packet returned normally{' and one failed with a connection error' if failed else ''}: the peer holds {len(got)} bytes which are not "
+            f"<{len(before)} bytes of the earlier packets> + <a prefix of the {len(P)}-byte abandoned packet> + <the {len(later)} bytes of the later packets>; {_describe(wl, extra)}",
+            key=f"C04/{family}/bytes-equal/after-abandoned-send",
+        )
 
 
 def _first_diff(a: bytes, b: bytes) -> int:
@@ -563,16 +612,60 @@ def _h_sync(world: World, family: str) -> None:
 
 
 # --------------------------------------------------------------------------------------------------- async harness
+_HANG_BOUND = 4000.0  # virtual seconds; every peer script of the async harnesses reads everything long before that
+
+
+async def _bounded_send(world: World, backend: Any, send: Callable[[Any], Any], arg: Any, budget: float | None, family: str, after_abandon: bool, describe: Callable[[], str]) -> str:
+    """one send; "ok" | "timeout" (only when the caller gave it a time budget: backend.timeout(budget)); connection errors
+    and anything else propagate.  A send that is still pending after _HANG_BOUND virtual seconds, on a connection whose
+    peer reads everything, blocks forever."""
+    try:
+        async with asyncio.timeout(_HANG_BOUND) as hang:
+            if budget is None:
+                await send(arg)
+            else:
+                with backend.timeout(budget):
+                    await send(arg)
+        return "ok"
+    except TimeoutError:
+        if hang.expired():
+            raise Violation(
+                "blocks-forever",
+                f"send_packet is still pending {_HANG_BOUND} virtual seconds after it was issued although the connection is healthy and the peer reads everything"
+                + (" (an earlier send_packet on this connection was abandoned by a timeout while suspended by backpressure; the peer then read everything)" if after_abandon else "")
+                + f"; {describe()}",
+                key=f"C04/{family}/blocks-forever" + ("/after-abandoned-send" if after_abandon else ""),
+            ) from None
+        if budget is None:
+            raise
+        return "timeout"
+
+
 def _h_aio(world: World) -> None:
     family = "aio-adapter"
     iov = int(_aio_sel.SC_IOV_MAX)
     wl = _Workload(world)
     via = world.pick("via", ("endpoint", "client"))
-    link = _Link(world, wl.total(), allow_never=False)
-    extra = {"via": via, "capacity": link.capacity, "peer": link.peer_mode, "fail_from": link.fail_from}
+    # history (a quarter of the runs): one send_packet is suspended by backpressure (the peer does not read, the packet is
+    # larger than the link) and abandoned by the caller's time budget (backend.timeout -> TimeoutError); the peer then reads
+    # everything; the sends issued afterwards on the healthy connection must terminate like any other
+    history = world.chance("history.abandon", 1, 4)
+    link = _Link(world, wl.total(), allow_never=False, force_small=history)
+    abandon_at: int | None = None
+    budget = 0.0
+    late_when = "after-drain"
+    if history:
+        cands = [i for i, ss in enumerate(wl.sizes) if sum(ss) > link.capacity]
+        if cands:
+            abandon_at = world.pick("history.at", cands)
+            budget = world.pick("history.budget", (0.25, 1.0 / 64, 2.0))
+            late_when = world.pick("history.later", ("after-drain", "at-once"))
+            if abandon_at == len(wl.packets) - 1:
+                wl.repeat_first()
+    extra = {"via": via, "capacity": link.capacity, "peer": link.peer_mode, "fail_from": link.fail_from, "abandon": (abandon_at, budget, late_when) if abandon_at is not None else None}
     world.notes.update(family=family, kind=wl.kind, sizes=wl.sizes, **{k: str(v) for k, v in extra.items()})
     backend = SimAsyncIOBackend(link.net)
-    state = {"current": 0, "done": 0, "failed": False, "early_return": False}
+    state: dict[str, Any] = {"current": 0, "done": 0, "failed": False, "early_return": False, "abandoned": None, "later_ok": 0}
     link.check_installed()
     link.tap.family = family
     link.tap.spin_key = lambda: _spin_key(family, wl, state["current"], iov)
@@ -606,9 +699,22 @@ def _h_aio(world: World) -> None:
                 link.tap.begin(link.lib, None, None)
                 link.tap.start_written = 0
                 link.tap.byte_budget = sum(sum(ss) for ss in wl.sizes[: i + 1])  # cumulative: a flush may outlive its send
+                abandon_now = i == abandon_at
+                # finding C04/aio-adapter/send-raises/AttributeError/after-connection-lost (D25, fixed in /repo, nothing is
+                # avoided): a send_packet issued after the connection was lost in the background (asyncio already ran
+                # connection_lost(): only reachable here after an abandoned send whose pending flush then hit ECONNRESET/
+                # EPIPE) reached asyncio's writelines() on a dead transport: AttributeError instead of a connection error.
+                lost_before = link.lib.sim_closed
+                if lost_before:
+                    world.probe("send_after_background_connection_loss")
+                if abandon_now:
+                    # the peer stops reading for good before this send: the packet does not fit into the link
+                    if link.slow is not None:
+                        link.slow.stop = True
+                    link.peer.pause_reading()
+                t0 = world.now
                 try:
-                    await sender.send_packet(packet)
-                    outcome = "ok"
+                    outcome = await _bounded_send(world, backend, sender.send_packet, packet, budget if abandon_now else None, family, state["abandoned"] is not None, lambda: _describe(wl, extra))
                 except ConnectionError:
                     outcome = "connection-error"
                 except _PASS_THROUGH:
@@ -620,15 +726,39 @@ def _h_aio(world: World) -> None:
                     raise Violation(
                         "send-raises",
                         f"send_packet raised {type(exc).__name__}: {exc} (only a connection error is allowed); {_describe(wl, extra)}",
-                        key=f"C04/{family}/send-raises/{type(exc).__name__}" + ("/zero-chunks" if zero_chunks else ""),
+                        key=f"C04/{family}/send-raises/{type(exc).__name__}" + ("/zero-chunks" if zero_chunks else "") + ("/after-connection-lost" if lost_before else ""),
                     ) from None
                 world.log("send_packet", family, i, outcome)
                 check_fatal()
+                if abandon_now:
+                    elapsed = world.now - t0
+                    if elapsed > budget + 1e-6:
+                        raise Violation(
+                            "time-budget",
+                            f"send_packet under backend.timeout({budget}) ended ({outcome}) after {elapsed} virtual seconds; {_describe(wl, extra)}",
+                            key=f"C04/{family}/time-budget/{outcome}",
+                        )
+                    # the peer reads again, everything, from now on
+                    link.peer.resume_reading()
+                    if outcome == "timeout":
+                        world.fault("cancel_at_time")
+                        world.probe("send_abandoned_while_suspended")
+                        state["abandoned"] = i
+                        expected_written += sum(wl.sizes[i])  # this adapter has queued the whole packet
+                        if late_when == "after-drain":
+                            await flushed(expected_written)
+                            await asyncio.sleep(1.0 / 64)
+                            check_fatal()
+                        continue
                 if outcome != "ok":
                     world.probe("outcome." + outcome)
                     state["failed"] = True
                     break
-                state["done"] += 1
+                if state["abandoned"] is None:
+                    state["done"] += 1
+                else:
+                    state["later_ok"] += 1
+                    world.probe("send_completed_after_abandoned_one")
                 world.progress(1)
                 expected_written += sum(wl.sizes[i])
                 if pipe.total_written < expected_written:
@@ -671,7 +801,10 @@ def _h_aio(world: World) -> None:
             run_async(world, main)
         link.settle()
         early = state["early_return"] and not state["failed"]
-        _check_bytes(family, wl, state["done"], state["failed"], link, extra, suffix="/returned-before-flush" if early else "")
+        if state["abandoned"] is not None:
+            _check_bytes_history(family, wl, state["abandoned"], state["later_ok"], state["failed"], bytes(link.peer.received), extra)
+        else:
+            _check_bytes(family, wl, state["done"], state["failed"], link, extra, suffix="/returned-before-flush" if early else "")
     finally:
         _rekey_fatal(world, _spin_key(family, wl, state["current"], iov))
 
@@ -705,13 +838,17 @@ def _h_aio_tls(world: World) -> None:
     via = world.pick("via", ("endpoint", "transport"))
     version = world.pick("tls.version", ("1.3", "1.2"))
     lib_server = bool(world.choose("tls.lib_server", 2))
-    baseline = world.choose("swarm.faults", 3) == 0
+    # history (a quarter of the runs), same as in aio-adapter: one send is suspended by backpressure (the peer does not read at
+    # all, the packet is larger than the link), abandoned by the caller's time budget, the peer then reads everything, and
+    # the later sends on the healthy connection must terminate
+    history = world.chance("history.abandon", 1, 4)
+    baseline = (not history) and world.choose("swarm.faults", 3) == 0
     net = SimNet(world)
     net.livelock_limit = 300
     if baseline:
         capacity, dsel, peer_mode = 1 << 21, 0, "reads"
     else:
-        cap_kind = world.pick("link.capacity", ("big", "small", "medium"))
+        cap_kind = world.pick("link.capacity", ("small", "medium") if history else ("big", "small", "medium"))
         capacity = {"big": 1 << 21, "small": 64 + world.choose("link.cap.small", 960), "medium": 2048 + world.choose("link.cap.medium", 30) * 1024}[cap_kind]
         if cap_kind != "big":
             capacity = max(capacity, wl.total() // 200 + 1)
@@ -763,13 +900,24 @@ def _h_aio_tls(world: World) -> None:
     if fail_from is not None:
         plan.fail_from["send"] = fail_from
     tap = _SendTap(world, plan)
-    extra = {"via": via, "tls": version, "lib_server": lib_server, "capacity": capacity, "peer": peer_mode, "peer_cfg": peer_cfg, "fail_from": fail_from}
+    abandon_at: int | None = None
+    budget = 0.0
+    late_when = "after-drain"
+    if history:
+        cands = [i for i, ss in enumerate(wl.sizes) if sum(ss) > capacity]  # cipher text >= plain text > link capacity
+        if cands:
+            abandon_at = world.pick("history.at", cands)
+            budget = world.pick("history.budget", (0.25, 1.0 / 64, 2.0))
+            late_when = world.pick("history.later", ("after-drain", "at-once"))
+            if abandon_at == len(wl.packets) - 1:
+                wl.repeat_first()
+    extra = {"via": via, "tls": version, "lib_server": lib_server, "capacity": capacity, "peer": peer_mode, "peer_cfg": peer_cfg, "fail_from": fail_from, "abandon": (abandon_at, budget, late_when) if abandon_at is not None else None}
     world.notes.update(family=family, kind=wl.kind, sizes=wl.sizes, **{k: str(v) for k, v in extra.items()})
     tap.family = family
     tap.spin_key = lambda: f"C04/{family}/spin"
     tap.describe = lambda: _describe(wl, extra)
     backend = SimAsyncIOBackend(net)
-    state = {"done": 0, "failed": False}
+    state: dict[str, Any] = {"done": 0, "failed": False, "abandoned": None, "later_ok": 0}
 
     def check_fatal() -> None:
         if world.fatal is not None:
@@ -791,6 +939,17 @@ def _h_aio_tls(world: World) -> None:
         gate["open"] = True
         peer_visible()
 
+    async def drained() -> None:
+        """until the socket has taken (and the reading peer has consumed) everything an abandoned send left queued:
+        deliveries take <= 4/64 s, so a whole second without a byte accepted means the queue is empty"""
+        prev = -1
+        for _ in range(400):
+            if lib.tx_pipe.total_written == prev or world.fatal is not None:  # type: ignore[union-attr]
+                break
+            prev = lib.tx_pipe.total_written  # type: ignore[union-attr]
+            await asyncio.sleep(1.0)
+        check_fatal()
+
     async def main() -> None:
         loop = asyncio.get_running_loop()
         if not baseline:
@@ -805,12 +964,17 @@ def _h_aio_tls(world: World) -> None:
             for i, packet in enumerate(wl.packets):
                 pos = len(world.trace)
                 tap.begin(lib, None, None)
+                abandon_now = i == abandon_at
+                if abandon_now:
+                    gate["gen"] += 1  # stops a periodic reader: the peer does not read at all during this send
+                    gate["open"] = False
+                t0 = world.now
                 try:
                     if via == "endpoint":
-                        await sender.send_packet(packet)
+                        send: Callable[[Any], Any] = sender.send_packet
                     else:
-                        await tls.send_all_from_iterable(wl.protocol.generate_chunks(packet))
-                    outcome = "ok"
+                        send = lambda pkt: tls.send_all_from_iterable(wl.protocol.generate_chunks(pkt))  # noqa: E731
+                    outcome = await _bounded_send(world, backend, send, packet, budget if abandon_now else None, family, state["abandoned"] is not None, lambda: _describe(wl, extra))
                 except ConnectionError:
                     outcome = "connection-error"
                 except _PASS_THROUGH:
@@ -828,19 +992,40 @@ def _h_aio_tls(world: World) -> None:
                 zero = sum(1 for t in world.trace[pos:] if t[0] == "send" and t[1] == lib.label and t[2] == 0)
                 if zero > len(wl.sizes[i]) + 1:
                     raise Violation("op-budget", f"send #{i} issued {zero} zero-length socket sends; {_describe(wl, extra)}", key=f"C04/{family}/op-budget")
+                if abandon_now:
+                    elapsed = world.now - t0
+                    if elapsed > budget + 1e-6:
+                        raise Violation("time-budget", f"TLS send under backend.timeout({budget}) ended ({outcome}) after {elapsed} virtual seconds; {_describe(wl, extra)}", key=f"C04/{family}/time-budget/{outcome}")
+                    release_peer()  # the peer reads again, everything, from now on
+                    if outcome == "timeout":
+                        world.fault("cancel_at_time")
+                        world.probe("send_abandoned_while_suspended")
+                        state["abandoned"] = i
+                        if late_when == "after-drain":
+                            await drained()
+                        continue
                 if outcome != "ok":
                     world.probe("outcome." + outcome)
                     state["failed"] = True
                     break
-                state["done"] += 1
+                if state["abandoned"] is None:
+                    state["done"] += 1
+                else:
+                    state["later_ok"] += 1
+                    world.probe("send_completed_after_abandoned_one")
                 world.progress(1)
             # after the last fault: the peer reads again; nothing may keep the loop busy
             release_peer()
+            if state["abandoned"] is not None:
+                await drained()  # the cipher text the abandoned send left in the adapter's queue is legitimate work
             idle = await loop_goes_idle(world, loop)
             check_fatal()
             if not idle:
                 raise Violation("spin", f"the event loop does not go idle after the TLS send returned; {_describe(wl, extra)}", key=f"C04/{family}/spin/loop-busy")
-            _check_plain(family, wl, state["done"], state["failed"], peer.plain_in, extra, peer.engine.error)
+            if state["abandoned"] is not None:
+                _check_bytes_history(family, wl, state["abandoned"], state["later_ok"], state["failed"], bytes(peer.plain_in), extra)
+            else:
+                _check_plain(family, wl, state["done"], state["failed"], peer.plain_in, extra, peer.engine.error)
             with backend.move_on_after(200.0) as scope:
                 await sender.aclose()
             check_fatal()
